@@ -101,11 +101,13 @@ func (z *ZodLazy[T]) Parse(input any, ctx ...*core.ParseContext) (T, error) {
 			var zero T
 			return zero, issues.CreateNonOptionalError(pc)
 		}
+		// convertResult wraps the default in a pointer when T is *any (Optional/Nilable lazies);
+		// a plain assertion to T panicked there.
 		if in.DefaultValue != nil {
-			return any(in.DefaultValue).(T), nil //nolint:unconvert
+			return z.convertResult(in.DefaultValue), nil
 		}
 		if in.DefaultFunc != nil {
-			return any(in.DefaultFunc()).(T), nil //nolint:unconvert
+			return z.convertResult(in.DefaultFunc()), nil
 		}
 		switch {
 		case in.PrefaultValue != nil:
